@@ -20,8 +20,8 @@ ASSUMPTIONS = [
     "the reference is passed explicitly when formats are compared, so that all three input formats share it",
 ]
 MIN_NONTRIVIAL = {"quick": 100, "thorough": 1000}
-REQUIRED = {"quick": {"relations_checked": 900, "format_comparisons": 30, "full_rank_distance_checks": 30, "refit_relations": 100, "jit_relations_checked": 300},
-            "thorough": {"relations_checked": 9000, "format_comparisons": 400, "full_rank_distance_checks": 400, "refit_relations": 1000, "jit_relations_checked": 3000}}
+REQUIRED = {"quick": {"relations_checked": 900, "format_comparisons": 30, "full_rank_distance_checks": 30, "refit_relations": 100, "jit_relations_checked": 300, "bigbatch_relations": 8},
+            "thorough": {"relations_checked": 9000, "format_comparisons": 400, "full_rank_distance_checks": 400, "refit_relations": 1000, "jit_relations_checked": 3000, "bigbatch_relations": 80}}
 
 
 def plan(tier, seed):
@@ -165,6 +165,24 @@ def check_case(ctx, c):
             setattr(est, attr, old)
             if not okk:
                 return
+    # (g2) batches beyond the kernels' internal chunk size (256 rows) under small / mid / large memory budgets
+    if ctx.mode != "PY" and rs.rand() < 0.3:
+        reps = 300 // nt + 2
+        Xbig = sp.vstack([Xt] * reps).tocsr()
+        old = est.memory_size
+        try:
+            for mem in ("2G", "100k", "30k", "4k"):
+                est.memory_size = mem
+                out = est.transform(Xbig, vectors=vec)
+                ctx.count("relations_checked")
+                ctx.count("bigbatch_relations")
+                exp = np.vstack([base] * reps)
+                if out.shape != exp.shape or not np.all(np.abs(out - exp) <= tol):
+                    bad = np.nonzero(np.max(np.abs(out - exp), axis=1) > tol)[0][:5].tolist() if out.shape == exp.shape else []
+                    viol("bigbatch-depends-on-memory_size-or-position", "a %d-row batch of repeated distributions (memory_size=%s): rows %s differ from the embedding of the same distribution" % (Xbig.shape[0], mem, bad))
+                    return
+        finally:
+            est.memory_size = old
     # (h) input formats carrying the same data (exact LOT only: the other methods accept matrices only)
     if method == "LOT_exact" and c.get("formats", True):
         try:
